@@ -1,5 +1,6 @@
 import Driver.GraphJson
 import SynKitModel.Canon
+import SynKitModel.NautyIR
 open Lean SynKit SynKit.Canon
 namespace Driver.Canon
 
@@ -18,7 +19,46 @@ def serJson (s : Ser) : Json :=
     ("nodes", Json.arr (s.nodes.map fun p => Json.arr #[toJson p.1, valsJson p.2]).toArray),
     ("edges", Json.arr (s.edges.map fun e => Json.arr #[pairJson e.1, pairJson e.2.1, valsJson e.2.2]).toArray)]
 
+def partJson (P : List (List Nat)) : Json := Json.arr (P.map fun c => (toJson c)).toArray
+
+/-- `{"nodes": [[key values], …], "edges": [null | [order, standard_order], …]}` — the structured
+label: one node item per entry of `prefix + order`, one edge item per pair `i < j` in loop order. -/
+def labelJson (l : IRLabel) : Json :=
+  Json.mkObj [
+    ("nodes", Json.arr (l.nodes.map valsJson).toArray),
+    ("edges", Json.arr (l.edges.map fun b => match b with | none => Json.null | some x => valsJson x).toArray)]
+
+def bestJson (b : IRBest) : Json :=
+  match b with
+  | none => Json.null
+  | some (l, o) => Json.mkObj [("order", toJson o), ("label", labelJson l)]
+
+/-- Answer of `canon.ir` (every stage of `NautyCanonicalizer.canonical_form`). -/
+def irJson (g : LGraph) (withLeaves : Bool) : Json :=
+  let p0 := irInitialPartition g
+  let best := irCanon g
+  let o := irCanonOrder g
+  Json.mkObj ([
+    ("initial", partJson p0),
+    ("refined", partJson (irRefine g p0)),
+    ("best", bestJson best),
+    ("best_noprune", bestJson (irCanonWith IRLabel.lt irPartialGt false g)),
+    ("order", toJson o),
+    ("graph", Driver.graphToJson (canonBy o g)),
+    ("ser", serJson (serialise (canonBy o g)))] ++
+    (if withLeaves then
+      [("leaves", Json.arr ((irLeaves g (g.nodes.length + 1) p0 []).map fun l =>
+        Json.mkObj [("prefix", toJson l.1), ("order", toJson l.2), ("label", labelJson (irLeafLabel g l))]).toArray)]
+    else []))
+
 /-- Commands
+* `canon.ir {graph, leaves?}` → the model of the exact back-end, stage by stage:
+  `initial` (`_initial_partition`), `refined` (`_refine` of it), `best` (`{order, label}` of the
+  search with pruning, `null` if none), `best_noprune`, `order` (`best["perm"]`), `graph`
+  (canonical graph), `ser` (its serialisation) and, with `"leaves": true`, every leaf
+  `{prefix, order, label}` of the unpruned search tree in visiting order
+* `canon.ir_refine {graph, partition}` → `_refine(G, partition)`
+* `canon.ir_sig {graph, partition, node}` → `_node_signature` as `{attrs, degree, counts, edges}`
 * `canon.by {graph, order}` → canonical graph for that node order
 * `canon.sig {graph, order}` → `serialise (canonBy order graph)`
 * `canon.serialise {graph}` → the pre-digest serialisation
@@ -40,6 +80,22 @@ def handle : Driver.Handler := fun cmd j =>
     let g ← Driver.getGraph j "graph"
     let o := bruteOrder g
     pure (Json.mkObj [("order", toJson o), ("graph", Driver.graphToJson (canonBy o g)), ("ser", serJson (serialise (canonBy o g)))])
+  | "canon.ir" => some do
+    let g ← Driver.getGraph j "graph"
+    let wl := match j.getObjValAs? Bool "leaves" with | .ok b => b | .error _ => false
+    pure (irJson g wl)
+  | "canon.ir_refine" => some do
+    let g ← Driver.getGraph j "graph"
+    let arr ← Driver.getArr j "partition"
+    let P ← arr.toList.mapM fun x => (fromJson? x : Except String (List Nat))
+    pure (partJson (irRefine g P))
+  | "canon.ir_sig" => some do
+    let g ← Driver.getGraph j "graph"
+    let arr ← Driver.getArr j "partition"
+    let P ← arr.toList.mapM fun x => (fromJson? x : Except String (List Nat))
+    let s := irSig g P (← Driver.getNat j "node")
+    pure (Json.mkObj [("attrs", valsJson s.attrs), ("degree", toJson s.degree), ("counts", toJson s.counts),
+      ("edges", Json.arr (s.edges.map valsJson).toArray)])
   | "spec.isRelabelling" => some do
     let m ← Driver.mappingOfJson (← j.getObjVal? "mapping")
     pure (Json.str (checkRelabelling (← Driver.getGraph j "graph") (← Driver.getGraph j "canon") m))
